@@ -176,8 +176,12 @@ def write_restart(path, spec, restart, rspec):
             shape = spec['shapes'][rl]
             boxes = rspec['boxes'][rl]
             nchunks = len(boxes)
-            for it in its:
-                G = global_array(var, it, rl, restart, shape, ghost)
+            for it, tl in [(i, t) for i in its
+                           for t in range(spec.get('timelevels', 1))]:
+                # IOHDF5::output_all_timelevels: past time levels carry the
+                # data of other iterations under the same 'it='
+                G = global_array(var, it if tl == 0 else it + 7 * tl, rl,
+                                 restart, shape, ghost)
                 for c, box in enumerate(boxes):
                     (x0, x1), (y0, y1), (z0, z1) = box
                     gx, gy, gz = g3(ghost)
@@ -185,7 +189,7 @@ def write_restart(path, spec, restart, rspec):
                     use_suffix = proc and (
                         nchunks > 1 or spec.get('force_file_suffix', False))
                     fn = _file_name(var, grouped, use_suffix, c, xyz)
-                    key = f"{thorn}::{var} it={it} tl=0"
+                    key = f"{thorn}::{var} it={it} tl={tl}"
                     if with_m:
                         key += " m=0"
                     key += f" rl={rl}"
